@@ -183,6 +183,8 @@ pub struct ThreadSt {
 	pub last_acq_seq: Vec<u32>,
 	/// all raw acquisitions (blocking or try) that succeeded in the most recent acquiring call
 	pub last_acquired: Vec<(u32, Mode)>,
+	/// poison flags whose exclusive hold is being unwound by this thread: (flag, leaves under the flag)
+	pub inflight: Vec<(u32, Vec<u32>)>,
 }
 
 #[derive(Clone, Debug, serde::Serialize, serde::Deserialize)]
@@ -221,6 +223,9 @@ pub struct Inner {
 	/// leaves held by a guard that was leaked with mem::forget (never released)
 	/// sequential mode: at environment step n (the foreign holders release because the subject blocks) the
 	/// foreign thread additionally takes this lock if it is free (hand-over patterns)
+	/// raw-op granularity: add a scheduling point right after the effect of every release (exposes "released,
+	/// then published" orderings such as unlock-before-poison)
+	pub post_release_points: bool,
 	pub env_script: Vec<Option<(u32, Mode)>>,
 	pub leaked: Vec<u32>,
 	/// poison reference model: per flag id 0 = must be false, 1 = must be true, 2 = unconstrained, 3 = panic in flight (either)
@@ -404,6 +409,13 @@ impl Inner {
 					(Some(Mode::Excl), Mode::Excl) => {
 						self.locks[op.lock as usize].excl = None;
 						note = "";
+						// the panicking holder starts giving this leaf back: from now on every observer must see the poison
+						let fl: Vec<u32> = self.threads[tid].inflight.iter().filter(|(_, ls)| ls.contains(&op.lock)).map(|(f, _)| *f).collect();
+						for f in fl {
+							if self.pmodel.get(&f).copied() == Some(PM_INFLIGHT) {
+								self.pmodel.insert(f, PM_TRUE);
+							}
+						}
 					}
 					(Some(Mode::Shared), Mode::Shared) => {
 						let l = &mut self.locks[op.lock as usize];
@@ -500,7 +512,7 @@ impl Exec {
 		let nlocks = is_rw.len();
 		let mut threads = vec![];
 		for _ in 0..MAXT {
-			threads.push(ThreadSt { status: Status::Finished, pending: None, result: false, chosen: 0, obs: 0, local: 0, use_local: false, pc: 0, ctx: CallCtx::none(), call_serial: 0, outcome: None, retry_rounds: 0, points: 0, last_acq_seq: vec![], last_acquired: vec![] });
+			threads.push(ThreadSt { status: Status::Finished, pending: None, result: false, chosen: 0, obs: 0, local: 0, use_local: false, pc: 0, ctx: CallCtx::none(), call_serial: 0, outcome: None, retry_rounds: 0, points: 0, last_acq_seq: vec![], last_acquired: vec![], inflight: vec![] });
 		}
 		for t in threads.iter_mut().take(nthreads) {
 			t.status = Status::NotStarted;
@@ -530,6 +542,7 @@ impl Exec {
 				blocked_seen: false,
 				machinery_error: None,
 				decider: None,
+				post_release_points: false,
 				env_script: vec![],
 				leaked: vec![],
 				pmodel: Default::default(),
@@ -875,6 +888,12 @@ pub fn raw_op(lock: u32, act: Act, mode: Mode) -> bool {
 		}
 	}
 	let (r, _) = exec.park(tid, Pending::Raw(op));
+	if act == Act::Unlock {
+		let post = exec.lock().post_release_points;
+		if post {
+			exec.park(tid, Pending::Yield(9));
+		}
+	}
 	r
 }
 
@@ -1198,24 +1217,26 @@ pub const PM_INFLIGHT_SHARED: u8 = 4;
 
 /// A panic starts unwinding while the caller holds these flags' locks. `flags` = (flag, culprit key);
 /// `excl` says whether the hold is exclusive.
-pub fn pm_panic_begin(flags: &[(u32, String)], excl: bool) {
-	if let Some((exec, _)) = ctx() {
+pub fn pm_panic_begin(flags: &[(u32, String, Vec<u32>)], excl: bool) {
+	if let Some((exec, tid)) = ctx() {
 		let mut g = exec.lock();
-		for (f, culprit) in flags {
+		for (f, culprit, leaves) in flags {
 			let cur = g.pmodel.get(f).copied().unwrap_or(PM_FALSE);
 			if excl {
 				g.pmodel.insert(*f, PM_INFLIGHT);
 				g.pculprit.insert(*f, culprit.clone());
+				g.threads[tid].inflight.push((*f, leaves.clone()));
 			} else if cur == PM_FALSE {
 				g.pmodel.insert(*f, PM_INFLIGHT_SHARED);
 			}
 		}
 	}
 }
-pub fn pm_panic_end(flags: &[(u32, String)]) {
-	if let Some((exec, _)) = ctx() {
+pub fn pm_panic_end(flags: &[(u32, String, Vec<u32>)]) {
+	if let Some((exec, tid)) = ctx() {
 		let mut g = exec.lock();
-		for (f, _) in flags {
+		g.threads[tid].inflight.clear();
+		for (f, _, _) in flags {
 			match g.pmodel.get(f).copied() {
 				Some(PM_INFLIGHT) => {
 					g.pmodel.insert(*f, PM_TRUE);
